@@ -242,7 +242,12 @@ pub fn run_threads(prefix: &[u8], bodies: Vec<Box<dyn FnOnce() + Send>>) -> Exec
         }
     }
     let mut body_panicked = false;
+    let abandoned = s.st.lock().unwrap().error.is_some();
     for h in hs {
+        // (after a watchdog error a thread may be blocked for good - on a lock it took twice, say: it is left behind)
+        if abandoned && !h.is_finished() {
+            continue;
+        }
         match h.join() {
             Ok(true) => {}
             _ => body_panicked = true,
